@@ -920,7 +920,7 @@ PROPS['C10'] = dict(
     level_note='lower() is uninterpreted (idempotent); that the grammar lower-cases label names and that .equ is stored at parse time '
                '(Directive::Equ) are outside the units: witnesses only',
     technique='Verus contracts on the extracted table getters/setters (R9 table view) + the fold/recursive oracles of EXPR, PASS1, PASS2',
-    verus=['ctxu', 'expr', 'pass1', 'pass2', 'encv', 'dir'],
+    verus=['ctxu', 'expr', 'pass1', 'pass2', 'encv', 'dir', 'mexp'],   # mexp #build_str / #build_file: the passes run with the SAME symbol context the parse filled
     witnesses=witnesses_c10,
     functions=['context::{CommonContext getters/setters, Context::get_expr, Context::exist}', 'Expr::run (Ident arm)', 'pass_1_internal (Label arm)',
                'pass_2_internal (Set/Def/Undef arms)', 'InstructionOps::get_r8'],
